@@ -15,4 +15,13 @@ for n, w, wb in [("SM3IV", sm3ref.IV, 4), ("SHA1IV", sharef.SHA1_IV, 4), ("SHA25
     if tla(n) != bytesof(w, wb):
         print("constant %s in Crypto.tla differs from reference; correct: <<%s>>" % (n, ",".join(map(str, bytesof(w, wb)))))
         bad = 1
+import sm2ref, sm9ref
+def tla2(path, name):
+    m = re.search(name + r" == <<([^>]*)>>", open(os.path.join(V, "spec", path)).read())
+    return [int(x) for x in m.group(1).replace("\n", " ").split(",")]
+for path, n, v in [("Sm2Curve.tla", "HexP", sm2ref.p), ("Sm2Curve.tla", "HexA", sm2ref.a), ("Sm2Curve.tla", "HexB", sm2ref.b), ("Sm2Curve.tla", "HexN", sm2ref.n),
+                   ("Sm2Curve.tla", "HexGx", sm2ref.G[0]), ("Sm2Curve.tla", "HexGy", sm2ref.G[1]), ("ImportJudge.tla", "HexP9", sm9ref.p)]:
+    if tla2(path, n) != list(v.to_bytes(32, "big")):
+        print("constant %s in %s differs from the reference" % (n, path))
+        bad = 1
 sys.exit(bad)
